@@ -675,6 +675,136 @@ impl FriProofLayer {
     }
 }
 
+// ---------------------------------------------------------------------------------------------------------------------
+// FriProof::parse_layers (fri/src/proof.rs, C03 / C05 / C06): layer i is decoded for the domain of size D / ff^(i+1). For every
+// number of layers and every content: Ok exactly when every layer's domain can still be folded (D / ff^i >= ff) and the layer is
+// a canonical encoding for its folded domain (layer_ok above); the results are the layers' values and batch proofs, in order.
+// Literal rewrites (listed): the loop header `for (i, layer) in self.layers.into_iter().enumerate()` loses the index (it is used
+// in error texts only, which are dropped); `.map_err(|err| InvalidValue(format!(..)))` becomes the shim as_invalid_layer; the
+// parameter `mut domain_size` is `domain_size0` re-bound as a mutable local (the installed Verus has no `mut` parameters).
+pub struct FriProofL { pub layers: Vec<FriProofLayer> }
+#[verifier::external_body]
+pub fn as_invalid_layer(r: Result<(Vec<T>, BatchMerkleProof), DeserializationError>) -> (o: Result<(Vec<T>, BatchMerkleProof), DeserializationError>)
+    ensures o is Ok <==> r is Ok, o is Ok ==> o->Ok_0 == r->Ok_0, o is Err ==> o->Err_0 is InvalidValue
+{ unimplemented!() }
+pub open spec fn dom(d: int, ff: int, i: nat) -> int
+    decreases i
+{
+    if i == 0 { d } else { dom(d, ff, (i - 1) as nat) / ff }
+}
+pub open spec fn layer_vals(l: FriProofLayer, ff: usize) -> Seq<T> {
+    let nq = l.values@.len() as int / (elem_bytes() as int * ff as int);
+    dec_many(l.values@, (nq * ff) as nat)->Some_0.0
+}
+pub open spec fn layer_proof(l: FriProofLayer, d: usize, ff: usize) -> BatchMerkleProof {
+    let nq = l.values@.len() as int / (elem_bytes() as int * ff as int);
+    bmp_dec(l.paths@, row_hashes(layer_vals(l, ff), nq as nat, ff as nat), ilog2_spec(d) as u8)->Some_0.0
+}
+// every one of the first n layers can still be folded and is a canonical encoding for its folded domain
+pub open spec fn layers_ok(ls: Seq<FriProofLayer>, d: int, ff: usize, n: int) -> bool
+    decreases n
+{
+    if n <= 0 { true } else {
+        &&& layers_ok(ls, d, ff, n - 1)
+        &&& dom(d, ff as int, (n - 1) as nat) >= ff
+        &&& layer_ok(ls[n - 1], dom(d, ff as int, n as nat) as usize, ff)
+    }
+}
+proof fn l_layers_ok_at(ls: Seq<FriProofLayer>, d: int, ff: usize, n: int, i: int)
+    requires layers_ok(ls, d, ff, n), 0 <= i < n
+    ensures dom(d, ff as int, i as nat) >= ff, layer_ok(ls[i], dom(d, ff as int, (i + 1) as nat) as usize, ff)
+    decreases n
+{
+    if i < n - 1 { l_layers_ok_at(ls, d, ff, n - 1, i); }
+}
+proof fn l_layers_ok_step(ls: Seq<FriProofLayer>, d: int, ff: usize, k: int)
+    requires
+        layers_ok(ls, d, ff, k), 0 <= k,
+        dom(d, ff as int, k as nat) >= ff, layer_ok(ls[k], dom(d, ff as int, (k + 1) as nat) as usize, ff),
+    ensures layers_ok(ls, d, ff, k + 1)
+{
+}
+proof fn l_layers_ok_refute(ls: Seq<FriProofLayer>, d: int, ff: usize, n: int, k: int)
+    requires 0 <= k < n, !(dom(d, ff as int, k as nat) >= ff && layer_ok(ls[k], dom(d, ff as int, (k + 1) as nat) as usize, ff))
+    ensures !layers_ok(ls, d, ff, n)
+{
+    if layers_ok(ls, d, ff, n) { l_layers_ok_at(ls, d, ff, n, k); }
+}
+proof fn lemma_dom_bounds(d: int, ff: int, i: nat)
+    requires 0 <= d, ff >= 1
+    ensures 0 <= dom(d, ff, i) <= d
+    decreases i
+{
+    if i > 0 {
+        lemma_dom_bounds(d, ff, (i - 1) as nat);
+        let x = dom(d, ff, (i - 1) as nat);
+        assert(0 <= x / ff <= x) by (nonlinear_arith) requires x >= 0, ff >= 1;
+    }
+}
+
+impl FriProofL {
+    //@@ source fri/src/proof.rs
+    //@@ extract anchor="pub fn parse_layers<H, E>("
+    //@@ rewrite-re "assert!\(([^,]+),[^;]*\);" => "if !(\1) { must_not_panic(); }"
+    //@@ rewrite "domain_size.is_power_of_two()" => "is_power_of_two(domain_size)"
+    //@@ rewrite "folding_factor.is_power_of_two()" => "is_power_of_two(folding_factor)"
+    //@@ rewrite "for (i, layer) in self.layers.into_iter().enumerate() {" => "for layer in self.layers.into_iter() {"
+    //@@ rewrite "let mut layer_proofs = Vec::new();" => "let mut layer_proofs: Vec<BatchMerkleProof> = Vec::new();"
+    //@@ rewrite "let mut layer_queries = Vec::new();" => "let mut layer_queries: Vec<Vec<T>> = Vec::new();"
+    //@@ rewrite-re "(?s)DeserializationError::InvalidValue\(format!\(.*?\)\)\)" => "DeserializationError::InvalidValue(err_text()))"
+    //@@ rewrite-re "(?s)layer\.parse\(domain_size, folding_factor\)\.map_err\(\|err\| \{.*?\}\)\?" => "as_invalid_layer(layer.parse(domain_size, folding_factor))?"
+    //@@ itername 1 it
+    //@@ loop 1
+    //@@|            invariant
+    //@@|                folding_factor >= 2, folding_factor <= 0x1_0000_0000, 1 <= elem_bytes() <= 64, d0 >= 1,
+    //@@|                ls == self.layers@, d0 == domain_size0,
+    //@@|                0 <= it.index@ <= ls.len(),
+    //@@|                domain_size == dom(d0 as int, folding_factor as int, it.index@ as nat),
+    //@@|                layers_ok(ls, d0 as int, folding_factor, it.index@),
+    //@@|                layer_proofs@.len() == it.index@, layer_queries@.len() == it.index@,
+    //@@|                forall|j: int| 0 <= j < it.index@ ==> #[trigger] layer_queries@[j]@ == layer_vals(ls[j], folding_factor),
+    //@@|                forall|j: int| 0 <= j < it.index@ ==> #[trigger] layer_proofs@[j] == layer_proof(ls[j], dom(d0 as int, folding_factor as int, (j + 1) as nat) as usize, folding_factor),
+    //@@ loopstart 1
+    //@@|            let ghost dprev = domain_size;
+    //@@|            let ghost k = it.index@;
+    //@@|            let ghost ok_before = layers_ok(ls, d0 as int, folding_factor, k);
+    //@@|            proof {
+    //@@|                assert(k < ls.len());
+    //@@|                assert(layer == ls[k]);
+    //@@|                lemma_dom_bounds(d0 as int, folding_factor as int, (k + 1) as nat);
+    //@@|                assert(dom(d0 as int, folding_factor as int, (k + 1) as nat) == dprev as int / folding_factor as int);
+    //@@|                // a layer that cannot be folded, or that is not a canonical encoding, refutes layers_ok for the whole list
+    //@@|                if dprev < folding_factor || !layer_ok(ls[k], (dprev / folding_factor) as usize, folding_factor) {
+    //@@|                    assert(!(dom(d0 as int, folding_factor as int, k as nat) >= folding_factor && layer_ok(ls[k], dom(d0 as int, folding_factor as int, (k + 1) as nat) as usize, folding_factor)));
+    //@@|                    l_layers_ok_refute(ls, d0 as int, folding_factor, ls.len() as int, k);
+    //@@|                }
+    //@@|                if dprev >= folding_factor {
+    //@@|                    assert(dprev as int / folding_factor as int >= 1) by (nonlinear_arith) requires dprev >= folding_factor, folding_factor >= 1;
+    //@@|                }
+    //@@|            }
+    //@@ loopend 1
+    //@@|            proof {
+    //@@|                assert(dom(d0 as int, folding_factor as int, (k + 1) as nat) as usize == domain_size);
+    //@@|                l_layers_ok_step(ls, d0 as int, folding_factor, k);
+    //@@|            }
+    pub fn parse_layers(self, domain_size0: usize, folding_factor: usize) -> (r: Result<(Vec<Vec<T>>, Vec<BatchMerkleProof>), DeserializationError>)
+        requires
+            is_pow2_spec(domain_size0), is_pow2_spec(folding_factor), domain_size0 >= 1,
+            2 <= folding_factor <= 0x1_0000_0000, 1 <= elem_bytes() <= 64,
+        ensures
+            r is Ok <==> layers_ok(self.layers@, domain_size0 as int, folding_factor, self.layers@.len() as int),
+            r is Ok ==> r->Ok_0.0@.len() == self.layers@.len() && r->Ok_0.1@.len() == self.layers@.len()
+                && (forall|j: int| 0 <= j < self.layers@.len() ==> #[trigger] r->Ok_0.0@[j]@ == layer_vals(self.layers@[j], folding_factor))
+                && (forall|j: int| 0 <= j < self.layers@.len() ==> #[trigger] r->Ok_0.1@[j]
+                        == layer_proof(self.layers@[j], dom(domain_size0 as int, folding_factor as int, (j + 1) as nat) as usize, folding_factor)),
+    {
+        let ghost d0 = domain_size0;
+        let ghost ls = self.layers@;
+        let mut domain_size = domain_size0;
+        /*@@body*/
+    }
+}
+
 proof fn oodv_canary_must_fail(b: Seq<u8>)
     requires trace_ok(b, 1)
     ensures b.len() == 1
